@@ -79,6 +79,7 @@ pub const RULES: &[(&str, &[&str])] = &[
     ("io.not_nonblocking", &["C17"]),
     ("io.flags_not_restored", &["C17", "C15"]),
     ("io.bytes_corrupted", &["C17"]),
+    ("transient.failed_replacement_retry", &["C15", "C18"]),
     ("io.bytes_lost", &["C17"]),
     ("io.task_not_woken", &["C17", "C02"]),
     ("io.no_progress", &["C17"]),
